@@ -370,7 +370,7 @@ class Tx:
     def x_Constant(self, n):
         v = n.value
         if isinstance(v, bool):
-            return E(S("True" if v else "False"))
+            return E(sp.Integer(1 if v else 0))  # True == 1, False == 0 in every arithmetic/comparison use
         if isinstance(v, int):
             return E(sp.Integer(v))
         if isinstance(v, float):
@@ -777,8 +777,8 @@ def _arith(e):
     return not any(isinstance(s, sp.Symbol) and s.name[:1] in "'\"" for s in e.free_symbols)
 
 
-def _bool_val(c, num=False):
-    one, zero = (sp.Integer(1), sp.Integer(0)) if num else (S("True"), S("False"))
+def _bool_val(c, num=True):
+    one, zero = sp.Integer(1), sp.Integer(0)
     if c is True:
         return E(one)
     if c is False:
